@@ -2,6 +2,7 @@ import Driver.Common
 import RxModel.CombN
 import RxModel.CombHO
 import RxModel.CombSeq
+import RxModel.CombPhase
 open Lean Drv Comb
 
 namespace DrvComb
@@ -41,6 +42,41 @@ def respond {σ ι β} (m : Machine σ ι β) (init : St σ) (initSubs : List Na
   Json.mkObj [("init", Json.arr (initSubs.map (fun k => effToJson f (Eff.sub k : Eff β))).toArray),
               ("steps", Json.arr ((runE m init evs).map (fun l => Json.arr (l.map (effToJson f)).toArray)).toArray)]
 
+def evToJson (f : ι → Json) : Ev ι → Json
+  | .src k n => Json.arr #[.str "s", .num (JsonNumber.fromNat k), notifToJson f n]
+  | .tick => Json.arr #[.str "t"]
+  | .dispose => Json.arr #[.str "d"]
+
+/-- timelines `[[sid, [[t, notif], …]], …]` in subscription order -/
+def timelinesOfJson (j : Json) : Except String (List (Nat × List (Nat × Notif Val))) := do
+  let arr ← j.getArr?
+  arr.toList.mapM fun e =>
+    match e with
+    | .arr #[sid, msgs] => do
+      let sid ← sid.getNat?
+      let ms ← (← msgs.getArr?).toList.mapM fun m =>
+        match m with
+        | .arr #[t, n] => do pure ((← t.getNat?), (← notifOfJson valOfJson n))
+        | _ => throw "bad timeline entry"
+      pure (sid, ms)
+    | _ => throw "bad timeline"
+
+/-- a static n-ary operator: plain (all sources subscribed), phased (the subscribe loop is in the trace: `"phased": true`),
+and, if `"timelines"` are given, the event list the model derives from them (delivered events only) -/
+def staticRespond {σ β} (j : Json) (m : Machine σ Val β) (s0 : σ) (init : St σ) (initSubs order : List Nat)
+    (evs : List (Ev Val)) (f : β → Json) : Except String Json := do
+  let ph := (j.getObjValAs? Bool "phased").toOption.getD false
+  let base := if ph then respond (phased m) (phasedInit s0 order) [] evs f else respond m init initSubs evs f
+  match j.getObjVal? "timelines" with
+  | .ok tj =>
+    let tls ← timelinesOfJson tj
+    let tev := tlEvents tls
+    let mask := acceptedMask m init (tev.map (·.2))
+    let acc := (tev.zip mask).filter (·.2) |>.map (·.1)
+    let tlJ := Json.arr (acc.map (fun te => Json.arr #[.num (JsonNumber.fromNat te.1), evToJson valToJson te.2])).toArray
+    pure (base.setObjVal! "tl_events" tlJ)
+  | .error _ => pure base
+
 def itemOfJson : Json → Except String Item
   | .str "src" => pure .src
   | .str "stop" => pure .stop
@@ -54,19 +90,23 @@ def handle (op : String) (j : Json) : Except String Json := do
   match op with
   | "zip" =>
     let n ← getNat j "n"
-    pure (respond (zipM n) (zipInit n) (List.range n) (← evsJ.mapM (evOfJson plainEv)) tupToJson)
+    staticRespond j (zipM n) {} (zipInit n) (List.range n) (subOrder op n) (← evsJ.mapM (evOfJson plainEv)) tupToJson
   | "combine_latest" =>
     let n ← getNat j "n"
-    pure (respond (clM n) (clInit n) (List.range n) (← evsJ.mapM (evOfJson plainEv)) tupToJson)
+    staticRespond j (clM n) {} (clInit n) (List.range n) (subOrder op n) (← evsJ.mapM (evOfJson plainEv)) tupToJson
   | "with_latest_from" =>
     let n ← getNat j "n"     -- total number of sources (parent + children)
-    pure (respond (wlfM (n - 1)) (wlfInit (n - 1)) (wlfInitSubs (n - 1)) (← evsJ.mapM (evOfJson plainEv)) tupToJson)
+    staticRespond j (wlfM (n - 1)) {} (wlfInit (n - 1)) (wlfInitSubs (n - 1)) (subOrder op n) (← evsJ.mapM (evOfJson plainEv)) tupToJson
   | "fork_join" =>
     let n ← getNat j "n"
-    pure (respond (fjM n) (fjInit n) (List.range n) (← evsJ.mapM (evOfJson plainEv)) tupToJson)
+    staticRespond j (fjM n) {} (fjInit n) (List.range n) (subOrder op n) (← evsJ.mapM (evOfJson plainEv)) tupToJson
   | "amb" =>
     let n ← getNat j "n"
-    pure (respond (ambM n) (ambInit n) (List.range n).reverse (← evsJ.mapM (evOfJson plainEv)) valToJson)
+    let evs ← evsJ.mapM (evOfJson plainEv)
+    if (j.getObjValAs? Bool "phased").toOption.getD false then
+      pure (respond (phasedAmb n) (phasedInit {} (subOrder op n)) [] evs valToJson)
+    else
+      staticRespond j (ambM n) {} (ambInit n) (List.range n).reverse (subOrder op n) evs valToJson
   | "amb_nested" =>
     let n ← getNat j "n"
     pure (respond (ambNestedM n) (ambNestedInit n) (List.range n).reverse (← evsJ.mapM (evOfJson plainEv)) valToJson)
